@@ -75,10 +75,24 @@ def history_case(start, ops):
 
 
 def evaluate(hist, res, ctx, facet, model_reply=None, only_last=False):
-    """oracle on every step of a history that was run on the real code (+ comparison with the model's
-    reply when given).  Returns the list of real Steps."""
+    """oracle on every step of a history that was run on the real code, and comparison with the model's
+    reply when given.
+
+    Which class an operation falls in (within Pre / known finding / misuse) is taken from the model when
+    the model was run on that step (it is the reference description of the unchanged code) and from the
+    harness' own classification otherwise; the two are compared (facet pre_class).
+
+    A state that fails both readings of the property
+      * in a history whose operations were all within Pre            -> violation  inv:<op>:<clause>
+      * after a known-finding operation, while real code and model still agree on every state
+                                                                    -> the known finding's key
+      * after a known-finding operation, but where the real code has left the model (so the failure
+        is not explained by the known behaviour)                     -> violation  after-<F>:<op>:<clause>
+      * after an argument-misuse operation                           -> not judged."""
     start_ops, steps, g, trunc = hist._real
     cause = None
+    reported = False
+    agreed = True            # real code and model agreed on every compared step so far
     f = res.facet(facet)
     fp = res.facet('pre_class')
     fi = res.facet('inv_flag')
@@ -86,71 +100,79 @@ def evaluate(hist, res, ctx, facet, model_reply=None, only_last=False):
     mi = 0
     for i, st in enumerate(steps):
         last = i == len(steps) - 1
-        if cause is None and st.cls != 'ok':
-            cause = st.cls
         checked = (not only_last) or last
         opk = st.op[0]
+        case = history_case(hist.start, [s.op for s in steps[:i + 1]])
+        # ---- correspondence first (the verdict on this step depends on it)
+        cls = st.cls
+        stop = False
+        if model is not None and i >= hist.dump_from:
+            head, pre, inv, wd = G.split_model_dump(model[mi])
+            mi += 1
+            cls = pre
+            if st.applied.set_loop_exc:
+                same = head.startswith('E=') and not head.startswith('E=-')   # only "both raised" is comparable
+            else:
+                same = head == st.head and G.dumps_equal(st.dump, wd, 1e-12 if st.inexact else None)
+            f['cases'] += 1
+            if not same:
+                agreed = False
+                stop = True
+                f['disagreements'] += 1
+                res.disagreements.append(dict(facet=facet, case=case, model=(head + ';' + wd)[:600], impl=(st.head + ';' + st.dump)[:600]))
+            fp['cases'] += 1
+            if pre != st.cls:
+                agreed = False
+                fp['disagreements'] += 1
+                res.disagreements.append(dict(facet='pre_class', case=case, model=pre, impl=st.cls))
+            if same:
+                fi['cases'] += 1
+                if inv != st.inv_expected:
+                    fi['disagreements'] += 1
+                    res.disagreements.append(dict(facet='inv_flag', case=case, model=str(inv), impl=str(st.inv_expected)))
+        if cause is None and cls != 'ok':
+            cause = cls
         if checked:
             res.evaluations += 1
             res.count('op:' + opk)
-            res.count('class:' + st.cls)
+            res.count('class:' + cls)
             if st.applied.exc:
                 res.count('exc:' + st.applied.exc)
-            res.hyp.setdefault('pre (hypothesis of inv_step)', [0, 0])
-            res.hyp['pre (hypothesis of inv_step)'][1] += 1
-            if st.cls == 'ok':
-                res.hyp['pre (hypothesis of inv_step)'][0] += 1
+            h = res.hyp.setdefault('pre (hypothesis of inv_step)', [0, 0])
+            h[1] += 1
+            h[0] += cls == 'ok'
         # ---- oracle
-        if checked or True:
-            both = st.weak and st.strong
-            case = history_case(hist.start, [s.op for s in steps[:i + 1]])
-            if both:
+        if not reported:
+            if st.weak and st.strong:
                 if cause is None:
                     res.violations.append(dict(key='inv:%s:%s' % (opk, st.weak[0]),
                                                what='after %s the grid is inconsistent: %s (by name) / %s (by identity)' % (json.dumps(st.op)[:160], st.weak, st.strong),
                                                case=case))
-                    cause = 'reported'
+                    reported = True
                 elif cause in G.FINDING_KEYS:
-                    res.violations.append(dict(key=G.FINDING_KEYS[cause],
-                                               what='%s: after %s: %s' % (cause, json.dumps(st.op)[:120], st.weak), case=case))
-                    cause = 'reported'
-                elif cause != 'reported':
+                    if agreed:
+                        res.violations.append(dict(key=G.FINDING_KEYS[cause], what='%s: after %s: %s' % (cause, json.dumps(st.op)[:120], st.weak), case=case))
+                        res.count('known-finding-consequence:' + cause)
+                    else:
+                        res.violations.append(dict(key='after-%s:%s:%s' % (cause, opk, st.weak[0]),
+                                                   what='after %s (following the known finding %s, but not explained by it: the real code left the model) the grid is inconsistent: %s' % (json.dumps(st.op)[:140], cause, st.weak),
+                                                   case=case))
+                    reported = True
+                else:
                     res.count('broken-after-misuse')
             elif cause is None:
                 if st.strong:
                     res.count('identity-reading-only-failure')
                 if st.rename_msg:
                     res.violations.append(dict(key='rename-loses-block', what='rename_blocks(%s): %s' % (json.dumps(st.op[1])[:120], st.rename_msg), case=case))
-                    cause = 'reported'
+                    reported = True
                 if st.check_exc:
                     res.violations.append(dict(key='check-raises:' + st.check_exc, what='t2grid.check() raises %s after %s' % (st.check_exc, json.dumps(st.op)[:120]), case=case))
-                    cause = 'reported'
-        # ---- correspondence
-        if model is not None and i >= hist.dump_from:
-            head, pre, inv, wd = G.split_model_dump(model[mi])
-            mi += 1
-            if checked:
-                f['cases'] += 1
-                if st.applied.set_loop_exc:
-                    # exception inside a loop over a set: only "both raised" is comparable
-                    same = head.startswith('E=') and not head.startswith('E=-')
-                else:
-                    same = head == st.head and G.dumps_equal(st.dump, wd, 1e-12 if st.inexact else None)
-                if not same:
-                    f['disagreements'] += 1
-                    res.disagreements.append(dict(facet=facet, case=history_case(hist.start, [s.op for s in steps[:i + 1]]),
-                                                  model=(head + ';' + wd)[:600], impl=(st.head + ';' + st.dump)[:600]))
-                    break
-                fp['cases'] += 1
-                if pre != st.cls:
-                    fp['disagreements'] += 1
-                    res.disagreements.append(dict(facet='pre_class', case=history_case(hist.start, [s.op for s in steps[:i + 1]]), model=pre, impl=st.cls))
-                fi['cases'] += 1
-                if inv != st.inv_expected:
-                    fi['disagreements'] += 1
-                    res.disagreements.append(dict(facet='inv_flag', case=history_case(hist.start, [s.op for s in steps[:i + 1]]), model=str(inv), impl=str(st.inv_expected)))
+                    reported = True
         if st.applied.set_loop_exc:
             res.count('history-ended:exception-inside-set-loop')
+            break
+        if stop:
             break
     return steps
 
@@ -160,6 +182,9 @@ def run_history(hist, gen=None, nmax=0):
     on the fly from the live grid"""
     g = G.start_grid(hist.start)
     start_ops = G.grid_as_ops(g) if hist.start is not None else []
+    reg = G.Registry()
+    reg.scan(g)
+    hist._reg = reg
     steps, names_before = [], []
     inexact = False
     i = 0
@@ -168,7 +193,7 @@ def run_history(hist, gen=None, nmax=0):
         if gen is not None:
             if i >= nmax:
                 break
-            op = gen(g, i)
+            op = gen(g, i, reg)
             if op is None:
                 break
             ops.append(op)
@@ -177,12 +202,12 @@ def run_history(hist, gen=None, nmax=0):
         op = ops[i]
         st = G.Step()
         st.op = op
-        st.cls = G.classify(g, op)
+        st.cls = G.classify(g, op, reg)
         names_before.append(([b.name for b in g.blocklist], [id(b) for b in g.blocklist]) if op[0] == 'rename_blocks' else None)
         if op[0] in ('minc', 'embed'):
             inexact = True
         hv = g.block[op[2]].volume if (op[0] == 'embed' and op[2] in g.block) else None
-        a = G.apply_op(g, op)
+        a = G.apply_op(g, op, reg)
         g = a.grid
         if hv is not None and a.exc is None and a.flag and op[2] in g.block:
             # the model subtracts in Q, the code in doubles: a sub-grid absorbed by rounding (host volume
@@ -273,6 +298,21 @@ def corpus_histories():
 
 # ------------------------------------------------------------------ exhaustive small scope
 
+def reuse_alphabet():
+    """operations that hand an existing object to add_* again (a deleted block / rock type / connection,
+    an object of a discarded second grid, an object that is already in the grid)"""
+    ops = []
+    for n in N4:
+        ops += [['readd_block', n], ['again_block', n]]
+        for r in R2:
+            ops.append(['add_block_fresh', n, r, 1.0, None])
+    for r in R2:
+        ops.append(['readd_rocktype', r])
+    for a, b in itertools.permutations(N4[:3], 2):
+        ops.append(['readd_connection', a, b])
+    return ops
+
+
 def static_alphabet():
     ops = []
     for r in R2:
@@ -288,6 +328,7 @@ def static_alphabet():
             if a != b:
                 ops.append(['delete_connection', a, b])
     ops += [['minc', [1.0, 1.0], 50., 1, None], ['minc', [1.0, 2.0, 1.0], 50., 2, [N4[0]]]]
+    ops += reuse_alphabet()
     s1 = {'rocks': [[R2[1], 2]], 'blocks': [[N4[2], R2[1], 0.25, None], [N4[3], R2[1], 0.25, None]], 'cons': [[0, 1, PAY]]}
     s2 = {'rocks': [[R2[0], 2]], 'blocks': [[N4[3], R2[0], 0.25, None]], 'cons': []}
     for s in (s1, s2):
@@ -350,6 +391,7 @@ def exhaustive(ctx, res, budget_s, max_depth, full):
     lines, hists = [], []
     depth = 0
     complete = True
+    fseen, fstates = {}, []
     while frontier and depth < max_depth:
         nxt = []
         for path in frontier:
@@ -367,9 +409,31 @@ def exhaustive(ctx, res, budget_s, max_depth, full):
                 if st.cls == 'ok' and not st.applied.exc and st.dump not in seen:
                     seen[st.dump] = True
                     nxt.append(path + [op])
+                elif st.cls in G.FINDING_KEYS and not st.applied.exc and (st.cls, st.dump) not in fseen:
+                    fseen[(st.cls, st.dump)] = True
+                    fstates.append(path + [op])
         frontier = nxt
         depth += 1
         res.count('exhaustive:depth-%d-new-states' % depth, len(nxt))
+    # states right after a known-finding operation (consistent by name or not, never by identity): every
+    # operation once more from there; the model says what the unchanged code does, the oracle judges
+    # whatever the model does not explain
+    if not full and len(fstates) > 40:
+        fstates = rng.sample(fstates, 40)
+    follow = [o for o in static if o[0] not in ('add_connection', 'delete_connection', 'embed')] + \
+             [['delete_connection', N4[0], N4[1]], ['delete_connection', N4[1], N4[2]], ['add_connection', N4[0], N4[2], PAY]]
+    t1 = time.time()
+    nf = 0
+    for path in fstates:
+        if time.time() - t1 > budget_s * 0.6:
+            break
+        nf += 1
+        for op in follow:
+            h = run_history(G.History([list(o) for o in path] + [op]))
+            h.dump_from = len(path) - 1
+            hists.append(h)
+            lines.append(G.model_line([], h._real[1], dump_from=len(path) - 1))
+    res.count('exhaustive:known-finding-states-expanded', nf)
     res.count('exhaustive:distinct-states', len(seen))
     res.stats['exhaustive:complete-to-depth'] = depth if complete else depth - 1
     return hists, lines
@@ -418,17 +482,27 @@ def random_spec(rng, g, common_rock=False):
     return {'rocks': [[rname, rng.randint(1, 9)]], 'blocks': [[n, rname, rng.choice([0.125, 0.25, 0.5]), None] for n in names], 'cons': cons}
 
 
-def random_op(g, rng, valid_only, state):
+KINDS = ['add_rocktype', 'delete_rocktype', 'rename_rocktype', 'clean_rocktypes', 'sort_rocktypes', 'add_block',
+         'delete_block', 'demote_block', 'add_connection', 'delete_connection', 'reorder', 'rename_blocks', 'minc',
+         'add', 'embed', 'readd_block', 'readd_rocktype', 'readd_connection', 'again_block', 'add_block_fresh']
+WEIGHTS = {'default': [6, 3, 4, 2, 2, 8, 5, 4, 10, 6, 6, 8, 2, 3, 3, 3, 2, 2, 1, 0],
+           # after a rock type was replaced / deleted while in use: the operations that look at rock types
+           'rocks': [8, 8, 10, 10, 6, 6, 3, 1, 2, 2, 1, 2, 3, 3, 2, 2, 8, 1, 1, 2],
+           # after a connected block was replaced: the operations that look at connection records
+           'blocks': [1, 1, 1, 1, 1, 6, 10, 2, 6, 10, 4, 6, 2, 2, 2, 10, 1, 6, 3, 1]}
+
+
+def random_op(g, rng, valid_only, state, reg=None):
     """one operation drawn from the live grid; with valid_only the draw is repeated until it is within Pre"""
+    reg = reg or G.Registry()
     names = [b.name for b in g.blocklist]
     rocks = [r.name for r in g.rocktypelist]
     keys = [tuple(b.name for b in c.block) for c in g.connectionlist]
     big = len(names) > 60
     for _ in range(50):
-        k = rng.choices(['add_rocktype', 'delete_rocktype', 'rename_rocktype', 'clean_rocktypes', 'sort_rocktypes', 'add_block',
-                         'delete_block', 'demote_block', 'add_connection', 'delete_connection', 'reorder', 'rename_blocks', 'minc',
-                         'add', 'embed'],
-                        [6, 3, 4, 2, 2, 8, 5, 4, 10, 6, 6, 8, 2 if state['minc'] < 2 else 0, 3, 3])[0]
+        wts = list(WEIGHTS[state.get('weights', 'default')])
+        if state['minc'] >= 2: wts[12] = 0
+        k = rng.choices(KINDS, wts)[0]
         wild = (not valid_only) and rng.random() < 0.5
         op = None
         if k == 'add_rocktype':
@@ -503,9 +577,22 @@ def random_op(g, rng, valid_only, state):
             small = [b.name for b in g.blocklist if b.volume < 1e9]
             host = rng.choice(small or names)
             op = [k, s, host if not wild else fresh_name(rng, set(names)), s['blocks'][0][0], random_pay(rng)]
+        elif k == 'readd_block':
+            gone = [b.name for b in reg.blocks if not any(b is x for x in g.blocklist)]
+            if gone: op = [k, rng.choice(gone)]
+        elif k == 'readd_rocktype':
+            gone = [r.name for r in reg.rocks if not any(r is x for x in g.rocktypelist)]
+            if gone: op = [k, rng.choice(gone)]
+        elif k == 'readd_connection':
+            gone = [tuple(b.name for b in c.block) for c in reg.cons if not any(c is x for x in g.connectionlist)]
+            if gone: op = [k] + list(rng.choice(gone))
+        elif k == 'again_block' and names:
+            op = [k, rng.choice(names)]
+        elif k == 'add_block_fresh' and not valid_only:
+            op = [k, fresh_name(rng, set(names)), rng.choice(rocks) if rocks else 'dfalt', 1.0, None]
         if op is None:
             continue
-        c = G.classify(g, op)
+        c = G.classify(g, op, reg)
         if valid_only and c != 'ok':
             continue
         if op[0] == 'minc':
@@ -525,8 +612,8 @@ def random_histories(ctx, res, n_small, n_big, maxlen):
         state = {'minc': 0}
         L = rng.randint(maxlen // 2, maxlen) if not big else rng.randint(maxlen // 4, maxlen // 2)
 
-        def gen(g, i, rng=rng, state=state, inject_at=inject_at):
-            return random_op(g, rng, inject_at is None or i != inject_at, state)
+        def gen(g, i, reg, rng=rng, state=state, inject_at=inject_at):
+            return random_op(g, rng, inject_at is None or i != inject_at, state, reg)
         h = G.History([], {'geo': rec})
         run_history(h, gen, L)
         hists.append(h)
@@ -535,6 +622,65 @@ def random_histories(ctx, res, n_small, n_big, maxlen):
         res.count('random:irregular' if rec.get('refine') else 'random:rectangular')
         res.count('random:histories')
         res.count('random:operations', len(h._real[1]))
+    return hists
+
+
+def grid_as_spec(g):
+    """recipe of a grid that the real fromgeo built (to add it to another one)"""
+    idx = dict((id(b), i) for i, b in enumerate(g.blocklist))
+    return {'rocks': [[r.name, int(r.density)] for r in g.rocktypelist],
+            'blocks': [[b.name, b.rocktype.name, float(b.volume), None if b.centre is None else [float(v) for v in b.centre]] for b in g.blocklist],
+            'cons': [[idx[id(c.block[0])], idx[id(c.block[1])],
+                      [int(c.direction), float(c.distance[0]), float(c.distance[1]), float(c.area), None if c.dircos is None else float(c.dircos), c.nad1, c.nad2]]
+                     for c in g.connectionlist]}
+
+
+def scenario_histories(ctx, res, n, maxlen):
+    """histories that go on after a known-finding operation: the grid is then consistent by name at best,
+    and everything the unchanged code does from there is described by the model.  Three routes:
+      sum    two grids built by the real fromgeo, both registering 'dfalt' in use, added (F2; also embed),
+      block  a connected block replaced by add_block (F1),
+      rock   a rock type in use replaced by add_rocktype or deleted (F2 / F3)."""
+    hists = []
+    for j in range(n):
+        rng = ctx.rng('scenario/%d' % j)
+        route = ['sum', 'block', 'rock', 'sum'][j % 4]
+        rec = random_recipe(rng, False)
+        rec['chars'] = 'abcdefghijklm'
+        g0 = G.start_grid({'geo': rec})
+        names = [b.name for b in g0.blocklist]
+        if route == 'sum':
+            rec2 = random_recipe(rng, False)
+            rec2['chars'] = 'nopqrstuvwxyz'
+            rec2['convention'] = rec.get('convention', 0)
+            rec2['atmos'] = 2 if rec['atmos'] == 0 else rec2['atmos']     # two 'ATM 0' blocks would be a common block name
+            spec = grid_as_spec(G.start_grid({'geo': rec2}))
+            if set(b[0] for b in spec['blocks']) & set(names):
+                continue
+            first = [['add', spec, rng.random() < 0.7]] if rng.random() < 0.7 else \
+                    [['embed', {'rocks': [['dfalt', 5]], 'blocks': [['zz  1', 'dfalt', 0.125, None]], 'cons': []},
+                      rng.choice([b.name for b in g0.blocklist if b.volume < 1e9] or names), 'zz  1', PAY]]
+            weights = 'rocks'
+        elif route == 'block':
+            con = [b.name for b in g0.blocklist if b.connection_name]
+            if not con:
+                continue
+            first = [['add_block', rng.choice(con), 'dfalt', 3.0, None]]
+            weights = 'blocks'
+        else:
+            first = [rng.choice([['add_rocktype', 'dfalt', 7], ['delete_rocktype', 'dfalt']])]
+            weights = 'rocks'
+        state = {'minc': 0, 'weights': weights}
+        L = rng.randint(3, maxlen)
+
+        def gen(g, i, reg, rng=rng, state=state, first=first):
+            if i < len(first):
+                return first[i]
+            return random_op(g, rng, rng.random() < 0.85, state, reg)
+        h = G.History([], {'geo': rec})
+        run_history(h, gen, L)
+        hists.append(h)
+        res.count('scenario:' + route)
     return hists
 
 
@@ -556,18 +702,27 @@ def run(ctx, scale=1.0, oracle_only=False):
         if want is not None and want != got:
             raise RuntimeError('corpus case %s: harness classifies the last operation as %s, expected %s' % (h.name, got, want))
     # exhaustive
-    eh, el = exhaustive(ctx, res, ctx.n(20, 420) * scale, ctx.n(2, 3), not ctx.quick)
+    tt = time.time()
+    eh, el = exhaustive(ctx, res, ctx.n(15, 360) * scale, ctx.n(2, 3), not ctx.quick)
+    res.stats['seconds:exhaustive-real-code'] = round(time.time() - tt, 1); tt = time.time()
     for h, l in zip(eh, el):
         hists.append(h); facets.append(('exhaustive', True)); lines.append(l)
     # random
-    rh = random_histories(ctx, res, int(ctx.n(60, 1500) * scale), int(ctx.n(6, 60) * scale), 60)
+    rh = random_histories(ctx, res, int(ctx.n(60, 1200) * scale), int(ctx.n(4, 40) * scale), 60)
     for h in rh:
         hists.append(h); facets.append(('random', False))
         h.dump_from = 0
         lines.append(G.model_line(h._real[0], h._real[1], 0))
+    res.stats['seconds:random-real-code'] = round(time.time() - tt, 1); tt = time.time()
+    for h in scenario_histories(ctx, res, int(ctx.n(48, 1000) * scale), 14):
+        hists.append(h); facets.append(('after_known_finding', False))
+        h.dump_from = 0
+        lines.append(G.model_line(h._real[0], h._real[1], 0))
+    res.stats['seconds:scenario-real-code'] = round(time.time() - tt, 1); tt = time.time()
     replies = [None] * len(lines)
     if ctx.model_ok and not oracle_only:
         replies = core.run_driver('drv_c08', lines)
+    res.stats['seconds:model-driver'] = round(time.time() - tt, 1); tt = time.time()
     for h, (facet, only_last), rep in zip(hists, facets, replies):
         steps = evaluate(h, res, ctx, facet, rep, only_last)
         res.unstable += getattr(h, 'unstable', 0)
@@ -580,25 +735,100 @@ def run(ctx, scale=1.0, oracle_only=False):
                 res.distinct.add(hashlib.sha1((before + json.dumps(st.op)).encode()).hexdigest()[:16])
         if facet == 'random' and len(res.samples) < 4 and steps:
             res.sample({'start': h.start, 'first_ops': [s.op for s in steps[:3]], 'n_ops': len(steps)})
-    for name in ('corpus', 'exhaustive', 'random', 'pre_class', 'inv_flag'):
+    for name in ('corpus', 'exhaustive', 'random', 'after_known_finding', 'pre_class', 'inv_flag'):
         res.facet(name)
     res.exhaustive = False
     return res
 
 
+def followups(g, reg):
+    """operations worth trying after a history on which model and real code disagreed: whatever re-uses an
+    object that left the grid, and whatever looks at rock types / connection records as a whole"""
+    ops = [['clean_rocktypes'], ['sort_rocktypes']]
+    for b in reg.blocks:
+        if not any(b is x for x in g.blocklist):
+            ops.append(['readd_block', b.name])
+    for r in reg.rocks:
+        if not any(r is x for x in g.rocktypelist):
+            ops.append(['readd_rocktype', r.name])
+    for c in reg.cons:
+        if not any(c is x for x in g.connectionlist) and len(c.block) == 2:
+            ops.append(['readd_connection', c.block[0].name, c.block[1].name])
+    for r in g.rocktypelist[:4]:
+        ops += [['rename_rocktype', r.name, 'zq  9'], ['delete_rocktype', r.name], ['add_rocktype', r.name, 1]]
+    for b in g.blocklist[:6]:
+        ops += [['delete_block', b.name], ['again_block', b.name], ['demote_block', [b.name]]]
+    for c in g.connectionlist[:6]:
+        k = [x.name for x in c.block]
+        ops += [['delete_connection'] + k, ['reorder', None, [k[::-1]] + [[x.name for x in d.block] for d in g.connectionlist if d is not c]]]
+    seen, out = set(), []
+    for o in ops:
+        key = json.dumps(o)
+        if key not in seen:
+            seen.add(key); out.append(o)
+    return out
+
+
+def judge(ctx, hists, facet='search'):
+    """oracle (+ model, when the driver is available) on a list of histories; returns the violations"""
+    r = Result()
+    lines = [G.model_line(h._real[0], h._real[1], h.dump_from) for h in hists]
+    replies = [None] * len(lines)
+    if ctx.model_ok and lines:
+        try:
+            replies = core.run_driver('drv_c08', lines)
+        except Exception:
+            replies = [None] * len(lines)
+    for h, rep in zip(hists, replies):
+        evaluate(h, r, ctx, facet, rep)
+    return r.violations
+
+
 def search(ctx, seconds, res):
+    """failing-input search.  First the histories on which model and real code disagreed, each continued
+    by every follow-up operation (one and two more steps); then fresh random runs."""
     found = list(res.violations)
     t0 = time.time()
+    known = core.known_keys(ID)
+    seen_cases = set()
+    for d in res.disagreements[:40]:
+        if found or time.time() - t0 > seconds * 0.6:
+            break
+        c = d.get('case') or {}
+        if 'ops' not in c:
+            continue
+        key = json.dumps(c, sort_keys=True)
+        if key in seen_cases:
+            continue
+        seen_cases.add(key)
+        base = run_history(G.History([list(o) for o in c['ops']], c.get('start')))
+        g, reg = base._real[2], base._reg
+        first = followups(g, reg)
+        hists = []
+        for o in first:
+            h = run_history(G.History([list(x) for x in c['ops']] + [o], c.get('start')))
+            hists.append(h)
+        found = [v for v in judge(ctx, hists) if v['key'] not in known]
+        if found:
+            break
+        for o in first[:12]:
+            if time.time() - t0 > seconds * 0.6:
+                break
+            h1 = run_history(G.History([list(x) for x in c['ops']] + [o], c.get('start')))
+            hists = [run_history(G.History([list(x) for x in c['ops']] + [o, o2], c.get('start'))) for o2 in followups(h1._real[2], h1._reg)[:30]]
+            found = [v for v in judge(ctx, hists) if v['key'] not in known]
+            if found:
+                break
     k = 0
     while not found and time.time() - t0 < seconds:
         k += 1
         c2 = core.Ctx(ctx.prop, ctx.tier, ctx.seed + 7919 * k)
-        c2.model_ok = False
+        c2.model_ok = ctx.model_ok
         try:
-            r = run(c2, scale=0.5, oracle_only=True)
+            r = run(c2, scale=0.4)
         finally:
             c2.cleanup()
-        found = r.violations
+        found = [v for v in r.violations if v['key'] not in known]
     return found
 
 
@@ -608,7 +838,12 @@ def replay(ctx, payload):
         return False, 'replay file names what no longer checks: %s' % payload.get('broken')
     h = run_history(G.History([list(o) for o in c['ops']], c.get('start')))
     res = Result()
-    evaluate(h, res, ctx, 'replay')
+    rep = None
+    try:      # with the model when the driver is built: needed to tell a known finding's consequences from anything else
+        rep = core.run_driver('drv_c08', [G.model_line(h._real[0], h._real[1], 0)])[0]
+    except Exception:
+        pass
+    evaluate(h, res, ctx, 'replay', rep)
     st = h._real[1][-1]
     txt = 'history of %d operations; after the last one (%s): by-name reading %s, identity reading %s, exception %s' % (
         len(h._real[1]), json.dumps(st.op)[:200], st.weak or 'consistent', st.strong or 'consistent', st.applied.exc)
